@@ -33,6 +33,9 @@ func init() {
 		replayGen{match: func(o *Obligation) bool {
 			return strings.HasPrefix(o.Name, "(*blockchain.Blockchain).WriteIdentityStateDiff/post/empty-diff-leaves-no-diff-stored")
 		}, gen: genStaleIdentityDiff},
+		replayGen{match: func(o *Obligation) bool {
+			return strings.HasPrefix(o.Name, "(*consensus.ForkResolver).checkForkSize/inv-")
+		}, gen: genForkAnswerGap},
 	)
 }
 
@@ -485,5 +488,58 @@ func TestVerifReplay(t *testing.T) {
 		return
 	}
 	fmt.Println("stored diff is the canonical block's diff")
+}
+`
+
+// genForkAnswerGap: the heights in a fork answer are chosen by the peer; with one block left out
+// (and the answer not longer than our chain) checkForkSize walks past the end of the answer.
+func genForkAnswerGap(o *Obligation, P *Program) (string, string) {
+	return "// Replay of obligation " + o.Name + "\n" + forkAnswerGapTest, "consensus"
+}
+
+const forkAnswerGapTest = `package consensus
+
+import (
+	"fmt"
+	"testing"
+
+	"github.com/idena-network/idena-go/blockchain"
+	"github.com/idena-network/idena-go/blockchain/types"
+	"github.com/idena-network/idena-go/crypto"
+	"github.com/idena-network/idena-go/stats/collector"
+)
+
+// Replay: a peer answers the fork request with blocks whose heights are not contiguous (it simply
+// leaves one out). The fork must be refused; the node must not crash.
+func TestVerifReplay(t *testing.T) {
+	key, _ := crypto.GenerateKey()
+	chain, _ := blockchain.NewCustomTestBlockchain(30, 0, key)
+	defer chain.SecStore().Destroy()
+	peer, _ := chain.Copy()
+	chain.GenerateBlocks(6, 1)
+	peer.GenerateBlocks(4, 0)
+	fork := peer.ReadBlockForForkedPeer(chain.GetTopBlockHashes(100))
+	if len(fork) < 3 {
+		t.Skip("no fork produced")
+	}
+	// the peer leaves the second block out: heights h, h+2, h+3 ... all below our head
+	gap := append([]types.BlockBundle{fork[0]}, fork[2:]...)
+	if gap[len(gap)-1].Block.Height() > chain.Head.Height() {
+		t.Skip("fork is longer than our chain")
+	}
+	resolver := NewForkResolver([]ForkDetector{}, nil, chain.Blockchain, collector.NewStatsCollector())
+	blocks := make(chan types.BlockBundle, len(gap))
+	for _, b := range gap {
+		blocks <- b
+	}
+	close(blocks)
+	defer func() {
+		if r := recover(); r != nil {
+			fmt.Printf("VERIF-REPLAY-VIOLATION: a fork answer with heights %d, %d, ... (one block left out) crashes the node: %v\n", gap[0].Block.Height(), gap[1].Block.Height(), r)
+			t.Fail()
+		}
+	}()
+	err := resolver.processBlocks(blocks, "peer")
+	fmt.Println("refused:", err)
 }
 `
